@@ -98,7 +98,7 @@ def shrink_disagreement(prop, case, select, max_rounds=14):
 
 def run(prop, tier, seed, theorems, select, oracle, nontrivial, gen_force=None, multi_eval=False,
         n_model=None, n_oracle=None, level_note="", extra_stage=None, known_filter=None,
-        disagreement_is_violation=False):
+        disagreement_is_violation=False, case_gen=None):
     """known_filter(what, detail, case) -> finding id or None (for recorded known findings)"""
     R = check.Result(prop, tier, seed)
     rng = check.make_rng(prop, seed)
@@ -129,7 +129,8 @@ def run(prop, tier, seed, theorems, select, oracle, nontrivial, gen_force=None, 
             R.broken.append(("coqchk", {"ok": cok, "axioms": axioms, "tail": tail}))
 
     # 2. correspondence model <-> implementation, property cone
-    cases = corpus_cases(prop) + epflow.gen_cases(rng, n_model, force=gen_force, multi_eval=multi_eval)
+    gen_fn = case_gen or (lambda r, k, prefix='c': epflow.gen_cases(r, k, force=gen_force, multi_eval=multi_eval, prefix=prefix))
+    cases = corpus_cases(prop) + gen_fn(rng, n_model)
     epflow.run_impl(cases)
     errs = epflow.run_model(cases, prop)
     for e in errs:
@@ -166,7 +167,7 @@ def run(prop, tier, seed, theorems, select, oracle, nontrivial, gen_force=None, 
             R.broken.append(("correspondence model/implementation", {"case": c.cid, "first": bad[:3], "replay": c.replay()}))
 
     # 3. oracle on implementation outputs: correspondence cases + a larger implementation-only stream
-    ocases = list(cases) + epflow.gen_cases(rng, n_oracle, force=gen_force, multi_eval=multi_eval, prefix="o")
+    ocases = list(cases) + gen_fn(rng, n_oracle, prefix="o")
     epflow.run_impl(ocases[len(cases):])
     otags = Counter()
     n_ok = 0
